@@ -249,6 +249,7 @@ class World:
                 s = self.socks.get(int(e[2]))
                 if s:
                     s.buffered -= 1
+                self.ev(ev="Recv", inst=inst.name, n=int(e[3]))
             elif k == "sys":
                 self.ev(ev="System", inst=inst.name, cmd=unhx(e[2]).decode("latin-1"))
             elif k == "sock":
